@@ -512,21 +512,27 @@ type c16CallState struct {
 	startAt    time.Time
 	startTable int
 	expect     []int
-	cancel     context.CancelFunc
-	stream     grpc.ClientStream
-	ccmd       chan int
-	cBusy      bool
-	nextSend   int
-	sendErrs   int
-	closeSent  bool
-	cancelled  bool
-	cRecv      [][]byte
-	cDone      bool
-	cCode      codes.Code
-	cMsg       string
-	cHeader    metadata.MD
-	cTrailer   metadata.MD
-	counted    bool
+	// The statement quantifies over table changes between calls. A table that is installed while a call has not
+	// reached a backend yet (fabio may look the route up at any point of that window) is a second admissible basis
+	// for the routing decision: expect is the union of the backends over the tables of the window and noRouteOK
+	// says that one of them had no matching route.
+	noRouteOK    bool
+	tableChanged bool
+	cancel       context.CancelFunc
+	stream       grpc.ClientStream
+	ccmd         chan int
+	cBusy        bool
+	nextSend     int
+	sendErrs     int
+	closeSent    bool
+	cancelled    bool
+	cRecv        [][]byte
+	cDone        bool
+	cCode        codes.Code
+	cMsg         string
+	cHeader      metadata.MD
+	cTrailer     metadata.MD
+	counted      bool
 
 	// backend side
 	reached   int
@@ -558,7 +564,7 @@ type c16Backend struct {
 	idx int
 	srv *grpc.Server
 
-	ln  *simnet.Listener
+	ln *simnet.Listener
 
 	// backend outage (fault)
 	down      bool
@@ -849,6 +855,27 @@ func (e *c16Env) install(ti int) {
 			b.cleanupDue = false
 		}
 	}
+	for _, c := range e.calls {
+		if !c.started || c.reached > 0 || c.cDone {
+			continue
+		}
+		alt := c16Expect(&e.sc.Tables[ti], c.sc.Method, c.sc.DstHost)
+		if fmt.Sprint(alt) != fmt.Sprint(c.expect) {
+			c.tableChanged = true
+		}
+		if len(alt) == 0 {
+			c.noRouteOK = true
+		}
+		for _, x := range alt {
+			have := false
+			for _, y := range c.expect {
+				have = have || x == y
+			}
+			if !have {
+				c.expect = append(c.expect, x)
+			}
+		}
+	}
 	e.mu.Unlock()
 }
 
@@ -874,6 +901,7 @@ func (e *c16Env) events() []simcore.Event {
 					e.mu.Lock()
 					c.started, c.startAt, c.startTable, c.cBusy, c.dialWindow = true, time.Now(), e.table, true, true
 					c.expect = c16Expect(&e.sc.Tables[e.table], c.sc.Method, c.sc.DstHost)
+					c.noRouteOK = len(c.expect) == 0
 					e.mu.Unlock()
 					go e.callerLoop(c)
 				})
@@ -972,7 +1000,7 @@ func (e *c16Env) events() []simcore.Event {
 			e.clockOps++
 			e.mu.Unlock()
 			dt := simcore.Pick(e.r.Sched, []time.Duration{time.Second, time.Millisecond, 3 * time.Second, 7 * time.Second, 30 * time.Second})
-			e.d.Advance(dt)
+			e.d.AdvanceRunningTasks(dt, 50*time.Millisecond)
 		})
 	}
 	return ev
@@ -1057,7 +1085,7 @@ func (e *c16Env) endOutage() {
 	o := e.sc.Outage
 	b := e.backends[o.Backend]
 	if o.Duration > 0 {
-		e.d.Advance(o.Duration)
+		e.advance(o.Duration)
 	}
 	bl, err := e.net.Listen(b.key, simnet.ListenOpts{Auto: true})
 	if err != nil {
@@ -1074,8 +1102,15 @@ func (e *c16Env) endOutage() {
 	}
 	if o.Grace > 0 {
 		// nobody calls for a while: what fabio holds may reconnect before the next call
-		e.d.Advance(o.Grace)
+		e.advance(o.Grace)
 	}
+}
+
+// advance lets simulated time pass. fabio's own tasks (the sweeper and the goroutines it starts to close
+// connections) run on whenever a timer releases them: time must not pass while one of them stands at a statement,
+// or the cleanup bound would be measured against a stopped sweeper.
+func (e *c16Env) advance(dt time.Duration) {
+	e.d.AdvanceRunningTasks(dt, 50*time.Millisecond)
 }
 
 // ---------------------------------------------------------------- observation at quiescent states
@@ -1152,8 +1187,8 @@ func (e *c16Env) observe() {
 				from = b.connSeenAt[i]
 			}
 			if now.Sub(from) > e.bound {
-				r.Fail("cleanup", "connection-not-closed", "backend %s left the table at %s; fabio's connection %s to it (established %s) is still open at %s, more than %s (2 min + the configured grpc shutdown timeout %s) later",
-					b.key, b.absentSince.Format("15:04:05.000"), cn.ID(), b.connSeenAt[i].Format("15:04:05.000"), now.Format("15:04:05.000"), e.bound, e.sc.ShutdownTimeout)
+				r.Fail("cleanup", "connection-not-closed", "backend %s left the table at %s; fabio's connection %s to it (established %s) is still open at %s, more than %s (2 min + the configured grpc shutdown timeout %s) later; tasks: %v",
+					b.key, b.absentSince.Format("15:04:05.000"), cn.ID(), b.connSeenAt[i].Format("15:04:05.000"), now.Format("15:04:05.000"), e.bound, e.sc.ShutdownTimeout, e.d.Sim.TaskStates())
 			}
 		}
 		if !b.present && open == 0 && b.cleanupDue {
@@ -1473,7 +1508,11 @@ func runC16(r *simcore.Run) {
 	e.settling = true
 	if e.outage == 1 {
 		// the backend is still down: time may pass only while no task stands at a statement of fabio code
-		for i := 0; i < 2000 && len(d.Sim.Enabled()) > 0 && d.Step(); i++ {
+		for i := 0; i < 2000; i++ {
+			synctest.Wait() // the task released by the previous step has reached its next yield (or a real block)
+			if len(d.Sim.Enabled()) == 0 || !d.Step() {
+				break
+			}
 		}
 		r.Tracef("op fault:outage-end (after the calls)")
 		e.endOutage()
@@ -1586,6 +1625,14 @@ func (e *c16Env) check() {
 		}
 		if c.reached > 1 {
 			r.Fail("transparency", "delivered-more-than-once", "%s reached a backend %d times", what, c.reached)
+			continue
+		}
+		if c.tableChanged {
+			r.Probe("call_routing_window_saw_table_change")
+		}
+		if c.noRouteOK && c.reached == 0 && c.cCode == codes.NotFound {
+			// a table without a matching route was active while the call was being routed
+			r.Probe("call_relaxed_no-route-table-in-window")
 			continue
 		}
 		if c.reached == 1 {
